@@ -9,7 +9,8 @@ package mqttproxy
 // Broker), runs in lock-step with the reference of c14_model_test.go.  After EVERY operation
 // findSubscribers(T) is called for all 119 topic names over {a,b,""} to depth 4 and compared
 // with the reference (client set; QoS within the QoS set of that client's own matching
-// subscriptions).
+// subscriptions).  A disconnect is any of the ways a connection ends in the broker (c14Conn.end);
+// the comparison after it runs before the client id connects again.
 
 import (
 	"errors"
@@ -121,10 +122,36 @@ func (c *c14Conn) unsubscribe(fs []string) {
 // disconnect = the end of Client.readLoop (closeAndDelSession, removeClient); the same
 // client id then connects again with a clean session.
 func (c *c14Conn) disconnect() {
+	c.end(c14EndPlain, nil)
+	c.reconnect()
+}
+
+// end lets the connection end in one of the ways the real broker knows (see c14End* in
+// c14_model_test.go).  Whoever closes the client object first, the connection has ended only
+// when Client.readLoop has returned, i.e. after its deferred closeAndDelSession + removeClient;
+// late (may be nil) is the one packet the read loop can still process between the two.  All
+// calls are the ones the real code makes, in an order the real broker produces:
+//   - Broker.deleteSession: watchDelete on a deleted session key (Client.close + client table);
+//   - Client.close alone: runPipeline when a pipeline answered Disconnect, reconnectWatcher;
+//   - Client.closeAndDelSession: Client.writeLoop after a failed write to the socket.
+func (c *c14Conn) end(kind string, late func()) {
+	switch kind {
+	case c14EndBroker:
+		c.rg.b.deleteSession(c.cid)
+	case c14EndClose:
+		c.cl.close()
+	case c14EndWriter:
+		c.cl.closeAndDelSession()
+	}
+	if late != nil {
+		late()
+	}
 	c.cl.closeAndDelSession()
 	c.rg.b.removeClient(c.cid)
-	c.cl = c.rg.connect(c.cid).cl
 }
+
+// reconnect: the same client id connects again with a clean session.
+func (c *c14Conn) reconnect() { c.cl = c.rg.connect(c.cid).cl }
 
 // shutdown closes the connection for good (ends the session's goroutine).
 func (c *c14Conn) shutdown() {
@@ -298,12 +325,55 @@ func (x *c14Exec) step(op c14Op) {
 		x.cover["op:"+op.K+":"+op.N] = true
 		x.r.Count("op_"+op.K, 1)
 	case "disc":
-		if x.guard("disconnect", nil, func() { x.conns[op.C].disconnect() }) {
+		conn := x.conns[op.C]
+		label := c14EndLabel(op)
+		if op.N != c14EndPlain || op.L != "" {
+			x.kind = "disc:" + label // part of the signature of whatever shows after this end
+		}
+		var late func()
+		var lateErr error
+		switch op.L {
+		case c14LateSub:
+			late = func() { lateErr = conn.subscribe(op.F, c14Qos(op.Q)) }
+		case c14LateUnsub:
+			late = func() { conn.unsubscribe(op.F) }
+		}
+		if x.guard("disconnect:"+label, nil, func() { conn.end(op.N, late) }) {
 			return
 		}
-		x.cover[fmt.Sprintf("op:disc:held=%d", len(x.ref.subs[op.C]))] = true
+		held := len(x.ref.subs[op.C])
+		x.cover[fmt.Sprintf("op:disc:%s:held=%d", label, held)] = true
 		x.ref.apply(op)
 		x.r.Count("op_disc", 1)
+		x.r.Count("conn_end:"+label, 1)
+		if held > 0 {
+			x.r.Count("conn_end_of_client_with_live_subscriptions:"+label, 1)
+		}
+		if op.L == c14LateSub {
+			x.r.Count(fmt.Sprintf("conn_end_late_subscribe_acknowledged=%v(not judged)", lateErr == nil), 1)
+		}
+		// The connection has ended completely and nobody has connected with this id again: the
+		// client holds nothing.  (The next CONNECT of the id discards whatever session it still
+		// finds, together with that session's filters, and would hide a left-over.)
+		v0 := x.r.ViolationCount()
+		x.compareAll(op)
+		if x.r.ViolationCount() > v0 {
+			// put the trie back so that the rest of the history is compared meaningfully
+			suffix := "\x00" + conn.cid
+			var left []string
+			for k := range c14Snapshot(x.mgr).entries {
+				if strings.HasSuffix(k, suffix) {
+					left = append(left, strings.TrimSuffix(k, suffix))
+				}
+			}
+			if len(left) > 0 {
+				x.mgr.unsubscribe(left, conn.cid)
+				x.r.Count("conn_end_left_subscriptions_removed_by_hand", 1)
+			}
+		}
+		if x.guard("connect-after-disconnect", nil, func() { conn.reconnect() }) {
+			return
+		}
 	case "bad-sub", "bad-unsub":
 		before := c14Snapshot(x.mgr)
 		var err error
@@ -458,10 +528,35 @@ func (x *c14Exec) finish() {
 	}
 }
 
+// c14EndClasses: every way a connection ends that the histories must have exercised.
+func c14EndClasses() []string {
+	var out []string
+	for _, op := range []c14Op{
+		{N: c14EndPlain},
+		{N: c14EndBroker}, {N: c14EndBroker, L: c14LateSub}, {N: c14EndBroker, L: c14LateUnsub},
+		{N: c14EndClose},
+		{N: c14EndWriter}, {N: c14EndWriter, L: c14LateSub}, {N: c14EndWriter, L: c14LateUnsub},
+	} {
+		out = append(out, c14EndLabel(op))
+	}
+	return out
+}
+
+// c14RequireEnds: a run in which one of the ways a connection ends was not exercised by a client
+// that held live subscriptions is inconclusive.
+func c14RequireEnds(r *kit.Run) {
+	for _, l := range c14EndClasses() {
+		r.Require("conn_end:"+l, 1)
+		r.Require("conn_end_of_client_with_live_subscriptions:"+l, 1)
+	}
+}
+
+const c14EndRule = "a disconnect is one of the ways a connection ends in the broker, always finished by the end of Client.readLoop (closeAndDelSession + removeClient): the client still open (DISCONNECT, read error), or the client object closed first by Broker.deleteSession (session deleted through the store), by Client.close alone (pipeline Disconnect, watcher re-sync) or by the write loop's closeAndDelSession after a write error, in the last three cases optionally with one SUBSCRIBE / UNSUBSCRIBE that the read loop still processes after that close; the routing comparison for all topics runs after the connection has ended and BEFORE the client id connects again (the next CONNECT discards a left-over session and would hide it); the way the connection ended is part of the signature (routing:extra:stale-after-disc:<who closed first>:<late packet>)"
+
 const c14Rule = "filters over levels {a,b,\"\",+,#} to depth 4 (never the empty filter), topics = all 119 names over {a,b,\"\"} to depth 4 (never empty, never '$'); " +
 	"real TopicManager + SessionManager/Session driven through the real handlers of client.go (processSubscribe / processUnsubscribe / closeAndDelSession; accepted = SUBACK written) in lock-step with a map reference and the textbook recursive matcher; " +
 	"after every operation findSubscribers is compared for all topics (client set, QoS within the client's own matching subscriptions); malformed filters must be rejected with the trie unchanged; " +
-	"after a full teardown the trie must be empty; distinct = (operation kind x filter shape / pruning class / malformation class) and (filter shape x match kind: exact-depth, hash-parent, hash-rest, plus-on-empty-level, empty-level)"
+	"after a full teardown the trie must be empty; " + c14EndRule + "; distinct = (operation kind x filter shape / pruning class / malformation class) and (filter shape x match kind: exact-depth, hash-parent, hash-rest, plus-on-empty-level, empty-level)"
 
 // ---------------------------------------------------------------- part 1: systematic prefix
 
@@ -470,7 +565,7 @@ const c14Rule = "filters over levels {a,b,\"\",+,#} to depth 4 (never the empty 
 func TestVerif_C14_Systematic(t *testing.T) {
 	r := kit.Start(t, "C14")
 	defer r.Finish()
-	r.Rule("systematic prefix. " + c14Rule)
+	r.Rule("systematic prefix (every well-formed filter alone, the disconnect of its holder cycling through the ways a connection ends; ordered pairs; single-level corruptions). " + c14Rule)
 	tb := c14Tab()
 	idx := 0
 	run := func(desc interface{}, cache, nClients int, script []c14Op) {
@@ -496,7 +591,7 @@ func TestVerif_C14_Systematic(t *testing.T) {
 			{K: "resub", C: 1, F: fs, Q: []int{0}},
 			{K: "unsub", C: 0, F: fs, N: "last-holder=false"},
 			{K: "unsub-never", C: 0, F: fs, N: "held-by-other-client"},
-			{K: "disc", C: 1},
+			c14EndOp(1, k, []string{tb.filters[(k*13+5)%len(tb.filters)]}, fs),
 			{K: "residue"},
 			{K: "sub", C: 1, F: fs, Q: []int{1}},
 			{K: "unsub", C: 1, F: fs, N: "last-holder=true"},
@@ -559,6 +654,7 @@ func TestVerif_C14_Systematic(t *testing.T) {
 	for _, k := range []string{"malformed_subscribe_rejected", "residue_checks", "matchclass_hash-parent", "matchclass_hash-rest", "matchclass_plus-on-empty-level", "matchclass_empty-level", "lru_at_capacity"} {
 		r.Require(k, 1)
 	}
+	c14RequireEnds(r)
 }
 
 // ---------------------------------------------------------------- part 2: seeded histories
@@ -566,8 +662,8 @@ func TestVerif_C14_Systematic(t *testing.T) {
 func TestVerif_C14_Histories(t *testing.T) {
 	r := kit.Start(t, "C14")
 	defer r.Finish()
-	r.Rule("seeded histories: 3-4 clients x 25 operations (subscribe 35%, re-subscribe with the other QoS 10%, unsubscribe 20%, unsubscribe of a filter the client never subscribed 10% (held by another client / prefix / extension / absent), disconnect 6%, malformed subscribe 6% / unsubscribe 4%, multi-filter subscribe 9%) over a pool of 5-9 structurally related filters, topicCacheSize 1-4, a full teardown + residue check at the end and in 40% of the histories also in the middle. " + c14Rule)
-	r.Assume("QoS values 0 and 1 only; one well-formed or one malformed filter per packet, or several well-formed ones (packets mixing well-formed and malformed filters are handled by TestVerif_C14_MixedPackets); disconnect = clean-session close (closeAndDelSession)")
+	r.Rule("seeded histories: 3-4 clients x 25 operations (subscribe 35%, re-subscribe with the other QoS 10%, unsubscribe 20%, unsubscribe of a filter the client never subscribed 10% (held by another client / prefix / extension / absent), disconnect 6% (cycling through the ways a connection ends, the late packet over the same pool), malformed subscribe 6% / unsubscribe 4%, multi-filter subscribe 9%) over a pool of 5-9 structurally related filters, topicCacheSize 1-4, a full teardown + residue check at the end and in 40% of the histories also in the middle. " + c14Rule)
+	r.Assume("QoS values 0 and 1 only; one well-formed or one malformed filter per packet, or several well-formed ones (packets mixing well-formed and malformed filters are handled by TestVerif_C14_MixedPackets); disconnect = end of a clean-session connection in one of the ways of the rule (at most one packet is processed after the client object was closed: the read loop checks its done channel between two packets); what is subscribed by a packet processed after the close is not live once the connection has ended")
 	n := r.N(1500, 60000)
 	for i := 0; i < n; i++ {
 		if !r.Mine(i) {
@@ -591,6 +687,7 @@ func TestVerif_C14_Histories(t *testing.T) {
 		"matchclass_hash-parent", "matchclass_hash-rest", "matchclass_plus-on-empty-level", "matchclass_empty-level", "lru_at_capacity"} {
 		r.Require(k, 1)
 	}
+	c14RequireEnds(r)
 }
 
 // ---------------------------------------------------------------- part 3: concurrent phase
